@@ -74,7 +74,14 @@ package nsqlookupd
 //@   requires validP(p) && dyntype(c) == typetag("*ClientV1") && validC(unbox(c, "*ClientV1"))
 
 //@ func (rr Registrations) Keys() []string
-//@   props C14
+//@   props C14 C15
+//@   ensures[aligned] len(result) == len(rr) && forall i int :: {result[i]} 0 <= i && i < len(rr) ==> result[i] == rr[i].Key
+//@   ensures[fresh] fresh(result)
+//@   modifies
+//@   nochan
+//@   loop 0
+//@     invariant fresh(keys) && len(keys) == len(rr)
+//@     invariant forall k int :: {keys[k]} 0 <= k && k <= rangeindex ==> keys[k] == rr[k].Key
 
 // ---------------------------------------------------------------------------------------------
 // RegistrationDB (C14). Everything below r.RWMutex: the outer map, every inner producer map.
@@ -85,6 +92,9 @@ package nsqlookupd
 //@   invariant[inner-nonnil] forall k Registration :: {self.registrationMap[k]} has(self.registrationMap, k) ==> self.registrationMap[k] != nil && allocated(self.registrationMap[k])
 //@   invariant[inner-owned] forall k1 Registration, k2 Registration :: {self.registrationMap[k1], self.registrationMap[k2]}
 //@        has(self.registrationMap, k1) && has(self.registrationMap, k2) && k1 != k2 ==> self.registrationMap[k1] != self.registrationMap[k2]
+// (area M) every stored producer is a real one, filed under its own peer id
+//@   invariant[producers-valid] forall k Registration, id string :: {self.registrationMap[k][id]} has(self.registrationMap, k) && has(self.registrationMap[k], id) ==>
+//@        self.registrationMap[k][id] != nil && self.registrationMap[k][id].peerInfo != nil && self.registrationMap[k][id].peerInfo.id == id
 
 //@ pred hasKey(r *RegistrationDB, k Registration) := has(r.registrationMap, k)
 //@ pred hasProd(r *RegistrationDB, k Registration, id string) := has(r.registrationMap, k) && has(r.registrationMap[k], id)
@@ -96,6 +106,9 @@ package nsqlookupd
 //@   ghostparam gid string
 //@   requires r != nil
 //@   ensures[added] atunlock(hasKey(r, k))
+//@   onreturn mAddCalls := mAddCalls + 1
+//@   onreturn mPrevAdd := mLastAdd
+//@   onreturn mLastAdd := k
 //@   ensures[other-keys] gk != k ==> (atunlock(hasKey(r, gk)) <==> atlock(hasKey(r, gk)))
 //@   ensures[producers-kept] atunlock(hasProd(r, gk, gid)) <==> atlock(hasProd(r, gk, gid))
 
@@ -133,6 +146,8 @@ package nsqlookupd
 //@   ghostparam gid string
 //@   requires r != nil
 //@   ensures[gone] !atunlock(hasKey(r, k))
+//@   onreturn mRemCalls := mRemCalls + 1
+//@   onreturn mLastRem := k
 //@   ensures[other-keys] gk != k ==> (atunlock(hasKey(r, gk)) <==> atlock(hasKey(r, gk)))
 //@   ensures[others] gk != k ==> (atunlock(hasProd(r, gk, gid)) <==> atlock(hasProd(r, gk, gid)))
 
@@ -149,6 +164,23 @@ package nsqlookupd
 //@ pred matches(k Registration, category string, key string, subkey string) :=
 //@      category == k.Category && (key == "*" || k.Key == key) && (subkey == "*" || k.SubKey == subkey)
 
+// (area M) ghost observation of registry calls, for the HTTP handler contracts (zz_contracts_mhttp_verif.go):
+// number of AddRegistration / RemoveRegistration / Tombstone calls and their most recent arguments; the most recent
+// FindRegistrations answer per category.
+//@ ghost mAddCalls int
+//@ ghost mLastAdd Registration
+//@ ghost mPrevAdd Registration
+//@ ghost mRemCalls int
+//@ ghost mLastRem Registration
+//@ ghost mTombCalls int
+//@ ghost mLastTomb *Producer
+//@ ghost mFRTopic Registrations
+//@ ghost mFRTopicKey string
+//@ ghost mFRTopicSub string
+//@ ghost mFRChan Registrations
+//@ ghost mFRChanKey string
+//@ ghost mFRChanSub string
+
 // Every key returned is a key of the map (at release of the read lock) and matches the query.
 //@ func (r *RegistrationDB) FindRegistrations(category string, key string, subkey string) Registrations
 //@   props C14 C15
@@ -157,6 +189,13 @@ package nsqlookupd
 //@   ensures[exact] forall k Registration :: key != "*" && subkey != "*" && k.Category == category && k.Key == key && k.SubKey == subkey ==>
 //@        ((len(result) == 1 && result[0] == k) <==> atunlock(hasKey(r, k))) && (len(result) == 0 <==> !atunlock(hasKey(r, k)))
 //@   modifies r.registrationMap, mapstore(map[Registration]ProducerMap), mapstore(ProducerMap)
+//@   onreturn mFRTopic := category == "topic" ? result : mFRTopic
+//@   onreturn mFRTopicKey := category == "topic" ? key : mFRTopicKey
+//@   onreturn mFRTopicSub := category == "topic" ? subkey : mFRTopicSub
+//@   onreturn mFRChan := category == "channel" ? result : mFRChan
+//@   onreturn mFRChanKey := category == "channel" ? key : mFRChanKey
+//@   onreturn mFRChanSub := category == "channel" ? subkey : mFRChanSub
+//@   ensures[fresh] fresh(result)
 //@   loop 0
 //@     invariant fresh(results)
 //@     invariant forall i int :: {results[i]} 0 <= i && i < len(results) ==> hasKey(r, results[i]) && matches(results[i], category, key, subkey)
@@ -178,4 +217,6 @@ package nsqlookupd
 //@   props C14
 //@   requires p != nil
 //@   ensures[marked] p.tombstoned && p.tombstonedAt == lastNow
+//@   onreturn mTombCalls := mTombCalls + 1
+//@   onreturn mLastTomb := p
 //@   modifies p.tombstoned, p.tombstonedAt, lastNow
